@@ -2551,3 +2551,59 @@ def phase_rules(run, rule, ast):
         run.instance(rule, "%s: the tables are installed whenever compilation is done" % short(f), (f["file"], f["line"]), ok=ok)
         if not ok:
             run.violation(rule, "compiler::install_global_tables|install", "install_gv is not called exactly once, unconditionally", (f["file"], f["line"]))
+
+
+
+# ---------------------------------------------------------------------------
+# (18) report.cells / concrete_cells
+
+def cellcount_rules(run, rule, ast):
+    """cells = product over ALL dimensions of the number of groups (what build_dispatch_table pushes: one cell per tuple of groups);
+    concrete_cells = product of the number of groups with concrete classes; both for multi-methods only, starting from 1."""
+    for f in by_name(ast, "build_dispatch_tables"):
+        byid, parent = astq.index_nodes(f)
+        for field, per_dim in (("cells", "size"), ("concrete_cells", "concrete")):
+            init = [n for n in astq.walk(f["body"]) if n.get("k") == "BinaryOperator" and n.get("op") == "=" and astq.strip(n["c"][0]).get("k") == "MemberExpr" and astq.strip(n["c"][0]).get("member") == field]
+            mul = [n for n in astq.walk(f["body"]) if n.get("k") == "CompoundAssignOperator" and n.get("op") == "*=" and astq.strip(n["c"][0]).get("k") == "MemberExpr" and astq.strip(n["c"][0]).get("member") == field]
+            other = [n for n in astq.walk(f["body"]) if n.get("k") in ("CompoundAssignOperator", "UnaryOperator") and n.get("op") in ("+=", "-=", "++", "--", "/=") and astq.strip(n["c"][0]).get("k") == "MemberExpr" and astq.strip(n["c"][0]).get("member") == field]
+            if len(init) != 1 or len(mul) != 1 or other:
+                run.broken.append("%s: computation of report.%s not in the form 'start at a value, multiply per dimension'" % (short(f), field))
+                continue
+            ok0 = astq.affine(init[0]["c"][1]) == {1: 1}
+            lp = _enclosing(parent, mul[0], ("CXXForRangeStmt",))
+            okl = bool(lp) and _members(lp[0]["range"]) == [] and astq.strip(lp[0]["range"]).get("k") == "DeclRefExpr" and "groups" == astq.strip(lp[0]["range"])["ref"]["name"].split("::")[-1] \
+                and not [g for g in _enclosing(parent, mul[0], ("IfStmt",)) if _in_subtree(lp[0]["body"], g)]
+            # the local `groups` holds one entry per dimension (declared in the method loop, resized to the arity)
+            factor = astq.strip(mul[0]["c"][1])
+            okf = False
+            if lp:
+                lv = lp[0]["var"]["did"]
+                if per_dim == "size":
+                    okf = factor.get("k") == "CXXMemberCallExpr" and (factor.get("callee") or "").endswith("::size") and _refs(factor, lv)
+                else:
+                    src = factor
+                    if factor.get("k") == "DeclRefExpr":
+                        d = [x for n in astq.walk(lp[0]["body"]) if n.get("k") == "DeclStmt" for x in n["decls"] if x["did"] == factor["ref"]["did"]]
+                        src = astq.strip(d[0]["init"]) if d and d[0].get("init") is not None else factor
+                    ci = [x for x in astq.walk(src) if x.get("k") == "CallExpr" and (x.get("callee") or "").startswith("std::count_if<")]
+                    if ci:
+                        lam = [x for x in astq.walk(ci[0]) if x.get("k") == "LambdaExpr"]
+                        pred = False
+                        for l0 in lam:
+                            for sp in (l0["lambda"].get("specializations") or []):
+                                bd = sp if sp.get("k") else sp.get("body")
+                                rs = [x for x in astq.walk(bd) if x.get("k") == "ReturnStmt" and x.get("c")]
+                                if len(rs) == 1:
+                                    e = astq.strip(rs[0]["c"][0])
+                                    pred = e.get("k") == "MemberExpr" and e.get("member") == "has_concrete_classes"
+                        okf = pred and _refs(ci[0]["c"][1], lv) and _refs(ci[0]["c"][2], lv)
+            # multi-methods only
+            gs = _enclosing(parent, init[0], ("IfStmt",))
+            okm = any(astq.eval_int_cond(g["cond"], lambda n: "arity" if (n.get("k") == "CXXMemberCallExpr" and (n.get("callee") or "").endswith("::arity")) else None, {"arity": 2}) is True and
+                      astq.eval_int_cond(g["cond"], lambda n: "arity" if (n.get("k") == "CXXMemberCallExpr" and (n.get("callee") or "").endswith("::arity")) else None, {"arity": 1}) is False for g in gs)
+            ok = ok0 and okl and okf and okm
+            run.instance(rule, "%s: report.%s = product over every dimension of the number of %sgroups, for multi-methods" % (short(f), field, "" if per_dim == "size" else "concrete "), (f["file"], mul[0]["l"]), ok=ok)
+            if not ok:
+                why = "does not start at 1" if not ok0 else "is not multiplied once per dimension (loop over all of `groups`, unconditionally)" if not okl else \
+                    ("the factor is `%s`, not the dimension's %s" % (astq.text(factor)[:60], "group count" if per_dim == "size" else "count of groups with concrete classes")) if not okf else "is not restricted to methods with two or more virtual parameters"
+                run.violation(rule, "compiler::build_dispatch_tables|%s" % field, "report.%s %s" % (field, why), (f["file"], mul[0]["l"]))
